@@ -13,5 +13,6 @@ pub mod run;
 pub mod sched;
 pub mod schedcheck;
 pub mod scn;
+pub mod stackprobe;
 pub mod world;
 pub mod fuzzglue;
